@@ -20,13 +20,19 @@ MANIFEST = {
             "left (repaired registry; refuted with a witness for the unrepaired one). The model is tied to the code on "
             "every run: generated op scripts are executed on the real singleton registry with creations nested through "
             "real callbacks, real app.Run starts with failing lazy components are traced at the registry interface, and "
-            "Coq evaluates model outputs and the theorems' oracles on the executed histories (vm_compute)",
+            "Coq evaluates model outputs and the theorems' oracles on the executed histories (vm_compute). Factory level: "
+            "Model/FactoryTrace.v computes the registry history of a whole start; c04_factory_conforms proves, for every "
+            "scenario and both variants of the code, that it is in the strict protocol language (so the three parts hold "
+            "of every start), with erasure and replay theorems tying the traced model to Model/Factory.v; the recorded "
+            "registry calls of real starts of generated wiring scenarios are compared with the model history op by op",
     "design_ref": "DESIGN.md 5 C04, Appendix A",
     "note": "trusted: Coq kernel + vm_compute; hand-written model of singleton_component_registry.go; Go driver (script "
-            "executor, tracing wrapper installed by reflection), Python generators. c04_factory_conforms (the factory only "
-            "issues protocol histories) is proved over Model/Factory.v elsewhere; here it is checked on every traced start",
+            "executor, tracing wrapper installed by reflection), Python generators; hand-written Model/Factory.v + "
+            "Model/FactoryTrace.v (IsSingletonCurrentlyInCreation queries are left out of the compared histories)",
     "technique": "Rocq proof (induction over op lists with a per-name view of the state) + vm_compute correspondence against "
-                 "the Go implementation (direct scripts, traced real starts, exhaustive small scripts in the thorough tier)",
+                 "the Go implementation (direct scripts, traced real starts, exhaustive small scripts in the thorough tier); factory "
+                 "histories: induction on the recursion fuel of the traced factory model (erasure, replay, protocol) + op-by-op "
+                 "comparison with traced real starts",
 }
 
 HEADER = ("From Coq Require Import List Arith Bool NArith.\n"
@@ -454,6 +460,11 @@ def shrink_ops(ops):
                 yield ops[:i] + [dict(o, b=b)] + ops[i + 1:]
 
 
+from wiring import Profile
+WPROFILES = [Profile(p_wrap=0.5, n_procs=(1, 2), p_cycle_bias=0.85, fields=(1, 4), p_lazy=0.3),
+             Profile(p_wrap=0.2, n_procs=(0, 2), p_fault=0.7, n_faults=(1, 2), p_cycle_bias=0.8, p_lazy=0.3, p_valid=0.7)]
+
+
 def run(ctx):
     static_ok = vlib.static_obligations(ctx)
     binp = vlib.go_build(ctx, "./cmd/c04")
@@ -474,7 +485,35 @@ def run(ctx):
         cases += [gen_e2e(rng) for _ in range(ne)]
         if ctx.quick():  # the smallest scripts, all of them (the thorough tier goes further, below)
             cases += list(enum_scripts(range(1, 4)))
-    by_id, M, V, nt, ncf, nstrict = evaluate(ctx, binp, cases, "main")
+    wonly = None
+    if ctx.replay and cases and cases[0].get("kind") == "wiring":
+        wonly, cases = cases[0]["scenario"], []
+    by_id, M, V, nt, ncf, nstrict = evaluate(ctx, binp, cases, "main") if cases else ({}, [], [], 0, 0, 0)
+    # factory histories: wiring scenarios (cycles, substituting post-processors, faults) started for real with the
+    # registry tracer; the recorded calls are compared op by op with the traced model and checked against C04
+    import wiring
+    WBASE = 10 ** 7
+    if wonly is not None:
+        wscns = [wonly]
+    else:
+        nw = 150 if ctx.quick() else 1500
+        wscns = [wiring.gen_scenario(rng, i, WPROFILES[i % len(WPROFILES)]) for i in range(nw)]
+    for i, s in enumerate(wscns):
+        s["id"], s["trace"] = i, True
+    wb, wout, _ = wiring.evaluate(ctx, wscns, "fw", "Corr.Check_C04w",
+                                  {"M": "mismatches", "V": "violations", "NT": "count_nontrivial"})
+    wnt = sum(wout["NT"])
+    for i, e in wb.items():
+        by_id[WBASE + i] = {"case": {"kind": "wiring", "scenario": e["scenario"]},
+                            "executed": (e["observation"].get("trace") or []) + (e["observation"].get("traceaft") or []),
+                            "observation": e["observation"], "names": e["names"]}
+    M += [WBASE + i for i in wout["M"]]
+    V += [WBASE + i for i in wout["V"]]
+    wtraced = sum(1 for e in wb.values() if e["observation"].get("traced"))
+    ctx.log("factory histories: scenarios=%d traced=%d nontrivial=%d mismatches=%d violations=%d" % (
+        len(wb), wtraced, wnt, len(wout["M"]), len(wout["V"])))
+    if wb and wtraced < len(wb):
+        ctx.notes.append("registry tracer could not be installed in %d of %d wiring starts" % (len(wb) - wtraced, len(wb)))
     ctx.log("cases=%d nontrivial=%d conforming=%d strict=%d mismatches=%d violations=%d" % (
         len(cases), nt, ncf, nstrict, len(M), len(V)))
     nexh = 0
@@ -582,7 +621,8 @@ def run(ctx):
             len(e2e_ids) - traced, len(e2e_ids)))
     samples = [by_id[i] for i in sorted(by_id)[:1]] + [by_id[i] for i in sorted(by_id)[-1:]]
     cov = {
-        "evaluations": len(cases) + nexh,
+        "evaluations": len(cases) + nexh + len(wb),
+        "factory_histories": {"scenarios": len(wb), "traced": wtraced, "with_early_reference_or_failed_creation": wnt},
         "distinct_nontrivial": min(nt, distinct),
         "rule": "executed registry histories (direct scripts on support.DefaultSingletonComponentRegistry with creations "
                 "nested through real callbacks; traced registry calls of real app.Run starts and later lookups); "
